@@ -8,6 +8,7 @@ from pyvc.contract import *
 TYPES = ["checking", "savings", "moneymrkt", "creditline", "creditcard", "investment"]
 BANK = TYPES[:4]
 DT = {"dtstart": "20200101", "dtend": "20200201120000.000[-5:EST]", "dtasof": "20200115"}
+DT_FUTURE = {"dtstart": "20990101", "dtend": "20991231235959.999[+9:JST]", "dtasof": "20990615"}      # dates are the user's: whatever they are, they go out
 
 
 def run_command(cmd, cli, userfile=None):
@@ -39,6 +40,7 @@ def check_configured(it, fn, a):
     from ofxtools.Types import DateTime
     cli = {k: list(v) for k, v in accts.items()}
     cli.update({"dryrun": True, "bankid": "B-1", "brokerid": "BR-2"})
+    DT = DT_FUTURE if seed % 3 == 0 else globals()["DT"]
     cli.update(DT)
     cli.update(flags)
     import warnings
@@ -125,6 +127,9 @@ def acctinfo_markup(infos, per_acctinfo):
                                              suptxdl=True, xfersrc=False, xferdest=False, svcstatus=status))
         elif kind == "cc":
             built.append(models.CCACCTINFO(ccacctfrom=models.CCACCTFROM(acctid=acct), suptxdl=True, xfersrc=False, xferdest=False, svcstatus=status))
+        elif kind == "bp":
+            # a bill-pay enrolment: it names a bank account, but it is not a bank account to fetch statements for
+            built.append(models.BPACCTINFO(bankacctfrom=models.BANKACCTFROM(bankid="111000614", acctid=acct, accttype=typ), svcstatus=status))
         else:
             built.append(models.INVACCTINFO(invacctfrom=models.INVACCTFROM(brokerid="broker.example.com", acctid=acct), usproducttype="OTHER",
                                             checking=False, svcstatus=status))
@@ -165,6 +170,8 @@ def check_all(it, fn, a):
     for kind, acct, typ, status in infos:
         if status != "ACTIVE":
             continue
+        if kind == "bp":
+            continue
         if kind == "bank":
             want.append(("StmtRq" if cmd == "request_stmt" else "StmtEndRq", acct, typ))
         elif kind == "cc":
@@ -191,7 +198,7 @@ def cases_all(tier):
     out = []
     rng = random.Random(11)
     pool = [("bank", "1001", "CHECKING"), ("bank", "1002", "CHECKING"), ("bank", "2001", "SAVINGS"), ("cc", "4111", None), ("cc", "4222", None),
-            ("inv", "77001", None), ("inv", "77002", None), ("bank", "3001", "MONEYMRKT")]
+            ("inv", "77001", None), ("inv", "77002", None), ("bank", "3001", "MONEYMRKT"), ("bp", "1001", "CHECKING"), ("bp", "5005", "SAVINGS")]
     n = 400 if tier == "thorough" else 120
     for _ in range(n):
         k = rng.randint(1, 6)
@@ -207,6 +214,8 @@ def cases_all(tier):
         infos = [(kd, ac, tp, rng.choice(["ACTIVE", "ACTIVE", "AVAIL", "PEND"])) for kd, ac, tp in rng.sample(pool, k)]
         uf = {}
         for kd, ac, tp, stt in infos:
+            if kd == "bp":
+                continue
             t = TYPE_OF.get(tp) if kd == "bank" else ("creditcard" if kd == "cc" else "investment")
             uf.setdefault(t, [])
             if rng.random() < 0.7:
